@@ -219,6 +219,13 @@ class Rec(T):
     def __init__(self, **fields):
         self.fields = dict(fields)
         self.open = False
+        self.optional_keys = ()
+
+    def optional(self, *keys):
+        """keys that may be absent (both cases are explored)"""
+        r = Rec(**self.fields)
+        r.optional_keys = tuple(keys)
+        return r
 
     def __repr__(self):
         return "Rec(%s)" % ", ".join("%s=%r" % kv for kv in self.fields.items())
@@ -429,3 +436,8 @@ def arbitrary(name, t):
     if ARBITRARY_SOURCE is None:
         raise RuntimeError("arbitrary() outside a replay")
     return ARBITRARY_SOURCE(name, t)
+
+
+def infinity():
+    """the value of numpy.inf / math.inf (symbolically: a constant above every finite metric value)"""
+    return float("inf")
